@@ -422,10 +422,18 @@ func inTypedMemClr(r *Run, fn *ssa.Function, args []Value) Value {
 	return Tuple{}
 }
 
+// The runtime side of the map iterator (go1.24, runtime.linknameIter): four
+// pointer words - key, elem, map type, *maps.Iter. mapiterinit stores the type
+// descriptor and a pointer to its heap-allocated iterator into words 2 and 3,
+// key and elem pointers into words 0 and 1; all four are pointers the
+// collector must see, so under strict heap typing the memory the caller hands
+// in must declare them as pointer words.
 type mapIterNative struct {
 	order []*MapEntry
 	k     int
 }
+
+const mapIterSize = 32
 
 func inMapIterInit(r *Run, fn *ssa.Function, args []Value) Value {
 	r.rtypeArg(args[0], "mapiterinit")
@@ -434,39 +442,53 @@ func inMapIterInit(r *Run, fn *ssa.Function, args []Value) Value {
 	if it.Obj == nil {
 		r.fail("nil-deref", "mapiterinit: nil iterator", "")
 	}
-	if it.Obj.Size-it.Off < 96 {
-		r.fail("oob", "mapiterinit: iterator memory smaller than the runtime iterator", fmt.Sprintf("have %d bytes", it.Obj.Size-it.Off))
+	if it.Obj.Size-it.Off < mapIterSize {
+		r.fail("oob", "mapiterinit: iterator memory smaller than the runtime iterator", fmt.Sprintf("have %d bytes, the runtime writes %d", it.Obj.Size-it.Off, mapIterSize))
 	}
 	st := &mapIterNative{}
 	if !m.IsNil() {
-		md := r.mapData(m)
-		_ = md
+		r.mapData(m)
 		st.order = r.mapOrder(m.Obj)
 	}
-	it.Obj.Native = st
+	so := r.newRaw(64, KNative, "maps.Iter")
+	so.Native = st
+	r.storeWord(Ptr{Obj: it.Obj, Off: it.Off + 16}, r.asPtr(args[0]))
+	r.storeWord(Ptr{Obj: it.Obj, Off: it.Off + 24}, Ptr{Obj: so})
+	r.iterPublish(it, st)
 	return Tuple{}
 }
 
-func iterState2(r *Run, v Value) *mapIterNative {
+// iterPublish writes the current key / elem pointers into words 0 and 1.
+func (r *Run) iterPublish(it Ptr, st *mapIterNative) {
+	if st.k >= len(st.order) {
+		r.storeWord(Ptr{Obj: it.Obj, Off: it.Off}, Ptr{})
+		r.storeWord(Ptr{Obj: it.Obj, Off: it.Off + 8}, Ptr{})
+		return
+	}
+	e := st.order[st.k]
+	r.storeWord(Ptr{Obj: it.Obj, Off: it.Off}, Ptr{Obj: r.keyCell(e)})
+	r.storeWord(Ptr{Obj: it.Obj, Off: it.Off + 8}, Ptr{Obj: e.Elem})
+}
+
+func iterState2(r *Run, v Value) (Ptr, *mapIterNative) {
 	it := r.asPtr(v)
 	if it.Obj == nil {
 		r.fail("nil-deref", "map iterator is nil", "")
 	}
-	st, ok := it.Obj.Native.(*mapIterNative)
-	if !ok {
+	sp := r.asPtr(r.loadWord(Ptr{Obj: it.Obj, Off: it.Off + 24}))
+	if sp.Obj == nil {
 		r.fail("bad-pointer", "map iterator was not initialised", "")
 	}
-	return st
+	st, ok := sp.Obj.Native.(*mapIterNative)
+	if !ok {
+		r.fail("bad-pointer", "map iterator state is not a runtime iterator", "")
+	}
+	return it, st
 }
 
 func inMapIterKey(r *Run, fn *ssa.Function, args []Value) Value {
-	st := iterState2(r, args[0])
-	if st.k >= len(st.order) {
-		return Ptr{}
-	}
-	e := st.order[st.k]
-	// keys live in their own cell so that a pointer to them can be handed out
-	return Ptr{Obj: r.keyCell(e)}
+	it, _ := iterState2(r, args[0])
+	return r.asPtr(r.loadWord(Ptr{Obj: it.Obj, Off: it.Off}))
 }
 
 func (r *Run) keyCell(e *MapEntry) *Object {
@@ -487,16 +509,14 @@ func (r *Run) keyCell(e *MapEntry) *Object {
 }
 
 func inMapIterElem(r *Run, fn *ssa.Function, args []Value) Value {
-	st := iterState2(r, args[0])
-	if st.k >= len(st.order) {
-		return Ptr{}
-	}
-	return Ptr{Obj: st.order[st.k].Elem}
+	it, _ := iterState2(r, args[0])
+	return r.asPtr(r.loadWord(Ptr{Obj: it.Obj, Off: it.Off + 8}))
 }
 
 func inMapIterNext(r *Run, fn *ssa.Function, args []Value) Value {
-	st := iterState2(r, args[0])
+	it, st := iterState2(r, args[0])
 	st.k++
+	r.iterPublish(it, st)
 	return Tuple{}
 }
 
